@@ -14,8 +14,8 @@
     rationals [m * 2^e]; all geometry below is exact integer arithmetic on them (squared distances,
     cross-multiplied inequalities, no square roots, no floats):
     - every returned point is within 1e-7 of both primitives;
-    - the kind equals the exact kind when the configuration is farther than 1e-6 from every
-      boundary between kinds, and equals the tangent kind when it is within 1e-10 of a tangency
+    - the kind equals the exact kind when the configuration is farther than 1e-8 (10 EPS) from
+      every boundary between kinds, and equals the tangent kind when it is within 1e-10 of a tangency
       (exact lattice tangencies: Pythagorean triples); between the two anything is accepted;
     - [position] / [contains] likewise with the library's relative (resp. absolute) tolerance:
       mandatory outside 1e-8, mandatory [Border]/[true] inside 1e-10. *)
@@ -229,7 +229,7 @@ Definition cl_cmp (l : dline) (c : dpt) (r : dy) (j : Z) : comparison :=
 Definition is_lt c := match c with Lt => true | _ => false end.
 Definition is_gt c := match c with Gt => true | _ => false end.
 (** margins in units of 1e-10 *)
-Definition OUTER : Z := 10 ^ 4.   (* 1e-6 *)
+Definition OUTER : Z := 100.      (* 1e-8 = 10 EPS *)
 Definition INNER : Z := 1.        (* 1e-10 *)
 
 Definition two_distinct (p q : dpt) : bool := negb (deq (fst p) (fst q) && deq (snd p) (snd q)).
@@ -268,16 +268,9 @@ Definition spec_cc (ca : dpt) (ra : dy) (cb : dpt) (rb : dy) (o : obs) : bool :=
   let D := dd2 ca cb in
   let sum := dadd ra rb in
   let dif := dabs (dsub ra rb) in
-  let R := dmax ra rb in let r := dmin ra rb in
   let separate := is_gt (cc_cmp D sum OUTER) in
   let contained := is_lt (cc_cmp D dif (- OUTER)) in
-  (* sagitta of the common chord on the larger circle at least 1e-8:
-     (D + R^2 - r^2)^2 <= 4 D (R - 1e-8)^2 *)
-  let g := 10 ^ 8 in
-  let chord_ok :=
-    dle (dscale (g * g) (dsq (dadd D (dsub (dsq R) (dsq r)))))
-        (dscale 4 (dmul D (dsq (dsub (dscale g R) d1)))) in
-  let crossing := is_gt (cc_cmp D dif OUTER) && is_lt (cc_cmp D sum (- OUTER)) && chord_ok in
+  let crossing := is_gt (cc_cmp D dif OUTER) && is_lt (cc_cmp D sum (- OUTER)) in
   let t_out := negb (is_lt (cc_cmp D sum (- INNER))) && negb (is_gt (cc_cmp D sum INNER)) in
   let t_in := negb (is_lt (cc_cmp D dif (- INNER))) && negb (is_gt (cc_cmp D dif INNER))
               && dle (mkDy 1 (-10)) dif in
